@@ -424,7 +424,7 @@ def nesting_depth(text):
 def c07_deep_source_nesting(case, params):
     """Source text nested deeper than `min_depth`: reader / expander / compiler passes recurse on the syntax tree
     with the native stack (stack overflow, SIGABRT)."""
-    return (case.get("search") in ("source", "source-jit") and case.get("outcome") == "crash"
+    return (case.get("search") in ("source", "source-jit") and case.get("outcome") in ("crash", "hang")
             and case.get("depth", nesting_depth(case.get("text", ""))) >= params.get("min_depth", 2000))
 
 
@@ -761,14 +761,14 @@ def run(ck):
     ck.cov["deny_list"] = denied
     if len(targets) < 400:
         raise TieBroken("only %d built-ins enumerated from the engine's modules" % len(targets))
-    n_per = {1: 10, 2: 12, 3: 9, 4: 3} if quick else {1: len(POOL), 2: 160, 3: 160, 4: 50}
+    n_per = {1: 8, 2: 9, 3: 6, 4: 2} if quick else {1: len(POOL), 2: 160, 3: 160, 4: 50}
     cases, meta = [], []
     corpus = load_corpus()
     by_name = {n: (m, g) for (m, n, _, g) in targets}
     for (m, n, kind, g) in targets:
         tuples = gen_calls(rng, n_per, dense=not quick)
         for ar in (2, 3):
-            for _ in range(3 if quick else 25):
+            for _ in range(2 if quick else 25):
                 tuples.append(same_kind_bias(rng, rng.choice(POOL), ar))
         units, ms = [], []
         for c in corpus.get("builtin", []):
@@ -810,10 +810,10 @@ def run(ck):
     ck.cov["builtin_failing_classes"] = len(fails)
 
     # ---------------- JIT-on sweep ------------------------------------------------------------------
-    forms = JIT_FORMS if not quick else rng.sample(JIT_FORMS, 22) + ["(zero? x)", "(sub1 x)"]
+    forms = JIT_FORMS if not quick else rng.sample(JIT_FORMS, 16) + ["(zero? x)", "(sub1 x)"]
     jcases, jmeta = [], []
     for form in dict.fromkeys(forms):
-        args = JIT_ARGS if not quick else rng.sample(JIT_ARGS, 9)
+        args = JIT_ARGS if not quick else rng.sample(JIT_ARGS, 7)
         for a in args:
             jcases.append(["(define (c07-jit-f x) %s)" % form, "(c07-jit-f %s)" % a[2], "(c07-jit-f %s)" % a[2], PROBE])
             jmeta.append((form, a))
@@ -846,14 +846,14 @@ def run(ck):
 
     # ---------------- (a) source-text fuzz -----------------------------------------------------------
     texts = [(c["kind"], c["text"]) for c in corpus.get("source", [])]
-    n_fuzz = 2500 if quick else 60000
+    n_fuzz = 2000 if quick else 60000
     for i in range(n_fuzz):
         kind = rng.choice(["bytes", "soup", "soup", "mutate", "mutate", "mutate", "truncate"])
         texts.append((kind, gen_source(rng, kind)))
     for form in [f[0] for f in DEEP_FORMS]:
         for n in ([300, 1200] if quick else [100, 300, 600, 1200, 1500]):
             texts.append(("nest:" + form, deep_source(form, n)))
-    deep_forms = rng.sample([f[0] for f in DEEP_FORMS], 4) if quick else [f[0] for f in DEEP_FORMS]
+    deep_forms = rng.sample([f[0] for f in DEEP_FORMS if f[0] != "let"], 3) if quick else [f[0] for f in DEEP_FORMS]
     for form in deep_forms:
         for n in ([10 ** 4] if quick else [10 ** 4, 3 * 10 ** 4, 10 ** 5]):
             texts.append(("deep:" + form, deep_source(form, n)))
@@ -904,7 +904,7 @@ def run(ck):
                                                                    d["outcome"], d.get("panic", d.get("stderr", ""))[:160]), d, tag="source")
 
     # ---------------- (c) histories ---------------------------------------------------------------------
-    n_hist = 120 if quick else 3000
+    n_hist = 100 if quick else 3000
     hcases, hmeta = [], []
     for i in range(n_hist):
         extra = []
